@@ -1,0 +1,86 @@
+//! Hooks for deterministic simulation (compiled only with the cargo feature `verif`).
+//!
+//! Public wrappers around private parts of the server that an external harness needs in order
+//! to run the job layer and the journal restore in-process. Nothing here is used by `hq`.
+
+use std::path::Path;
+
+use tako::control::ServerRef;
+use tako::events::EventProcessor;
+use tako::gateway::TaskSubmit;
+use tako::resources::ResourceDescriptor;
+use tako::{ItemId, JobId, WorkerId};
+
+use crate::server::Senders;
+use crate::server::autoalloc::{QueueId, QueueParameters};
+use crate::server::restore::StateRestorer;
+use crate::server::state::StateRef;
+use crate::server::tako_events::UpstreamEventProcessor;
+
+/// The real event processor that connects the tako core to the HQ job layer.
+pub fn upstream_event_processor(state_ref: StateRef, senders: Senders) -> Box<dyn EventProcessor> {
+    Box::new(UpstreamEventProcessor::new(state_ref, senders))
+}
+
+pub struct RestoredQueue {
+    pub queue_id: QueueId,
+    pub params: QueueParameters,
+    pub worker_resources: Option<ResourceDescriptor>,
+}
+
+/// Wrapper around the private `StateRestorer`.
+pub struct RestoreProbe {
+    restorer: StateRestorer,
+}
+
+impl RestoreProbe {
+    /// MIRROR: first block of `bootstrap::start_server` (load the journal).
+    pub fn load(path: &Path) -> crate::Result<Self> {
+        let mut restorer = StateRestorer::default();
+        restorer.load_event_file(path)?;
+        Ok(RestoreProbe { restorer })
+    }
+
+    pub fn job_id_counter(&self) -> <JobId as ItemId>::IdType {
+        self.restorer.job_id_counter()
+    }
+
+    pub fn worker_id_counter(&self) -> WorkerId {
+        self.restorer.worker_id_counter()
+    }
+
+    pub fn queue_id_counter(&self) -> QueueId {
+        self.restorer.queue_id_counter()
+    }
+
+    pub fn truncate_size(&self) -> Option<u64> {
+        self.restorer.truncate_size()
+    }
+
+    pub fn take_server_uid(&mut self) -> String {
+        self.restorer.take_server_uid()
+    }
+
+    /// MIRROR: the restore block of `bootstrap::start_server`
+    /// (`state.restore_state`, `restore_jobs_and_queues`).
+    pub fn restore(
+        self,
+        state_ref: &StateRef,
+        server_ref: &ServerRef,
+    ) -> crate::Result<(Vec<TaskSubmit>, Vec<RestoredQueue>)> {
+        let mut state = state_ref.get_mut();
+        state.restore_state(&self.restorer);
+        let (tasks, queues) = self.restorer.restore_jobs_and_queues(&mut state, server_ref)?;
+        Ok((
+            tasks,
+            queues
+                .into_iter()
+                .map(|q| RestoredQueue {
+                    queue_id: q.queue_id,
+                    params: *q.params,
+                    worker_resources: q.worker_resources,
+                })
+                .collect(),
+        ))
+    }
+}
